@@ -215,7 +215,7 @@ func (f *File) register(path string) string {
 
 // prefixed returns the name under which an import is registered: aliases get the package prefix.
 func (f *File) prefixed(name string, alias bool) string {
-	if f.PackagePrefix != "" && alias {
+	if f.PackagePrefix != "" && alias && name != "." {
 		return f.PackagePrefix + "_" + name
 	}
 	return name
